@@ -297,7 +297,9 @@ package core
 //@   ensures[type.int] (result1 == nil && old(buf.buf[buf.r]) == ':') ==> result0 == codec.RspInteger
 //@   ensures[type.bulk] (result1 == nil && old(buf.buf[buf.r]) == '$') ==> result0 == codec.RspBulk
 //@   ensures[type.array] (result1 == nil && old(buf.buf[buf.r]) == '*') ==> (result0 == codec.RspMultibulk || result0 == codec.UNKNOWN)
-//@   ensures[type.err@C11] (result1 == nil && old(buf.buf[buf.r]) == '-' && !old(errprefix(str(line0(buf))))) ==> result0 == codec.RspError
+//@   ensures[type.err@C11,C13] (result1 == nil && old(buf.buf[buf.r]) == '-' && !old(errprefix(str(line0(buf))))) ==> result0 == codec.RspError
+//@   ensures[type.redirect@C13] (result1 == nil && result0 == codec.RspMoved) ==> old(has_prefix(str(line0(buf)), "-MOVED"))
+//@   ensures[type.redirect.ask@C13] (result1 == nil && result0 == codec.RspAsk) ==> old(has_prefix(str(line0(buf)), "-ASK"))
 //@   ensures[type.moved@C13] (result1 == nil && (result0 == codec.RspMoved || result0 == codec.RspAsk)) ==> old(buf.buf[buf.r]) == '-'
 //@   ensures[type.iserr@C11] (result1 == nil && (result0 == codec.RspError || result0 == codec.RspNeedAuth || result0 == codec.RspAuthFailed || result0 == codec.RspNeedNtAuth)) ==> old(buf.buf[buf.r]) == '-'
 //@   loop 0
